@@ -300,6 +300,12 @@ def plan(prop, tier, seed):
                     leg["config"] = cn
                 return out
             legs.append(mk)
+    if prop == "C06":
+        # "under any configured default densities": the same table with a solid density of 2 g/mL and an enzyme density of 4 U/mL
+        def dens():
+            import configs
+            return units_leg(REALISTIC, seed, env_extra={"PYPLATE_CONFIG": configs.make("dens24")}, tag="dens24")
+        legs.append(dens)
     if prop in ("C06", "C14", "C19"):
         legs.append(lambda: units_leg(REALISTIC, seed))
         if not q:
